@@ -6,3 +6,10 @@ CONSTANTS
  HistLen = 5
 INIT InitCalls
 NEXT EvalGen
+INVARIANT AllInDomain
+INVARIANT GapSums
+INVARIANT KeepsATail
+INVARIANT NothingToDo
+INVARIANT IntDeals
+INVARIANT DegapLast
+INVARIANT DegapNested
